@@ -76,6 +76,18 @@ def op_swrite(fa, schema, datum):
     return b.getvalue()
 
 
+def op_swrite_opts(fa, schema, datum, opts):
+    b = io.BytesIO()
+    fa.schemaless_writer(b, schema, datum, **opts)
+    return b.getvalue()
+
+
+def op_cwrite_opts(fa, schema, records, opts):
+    b = io.BytesIO()
+    fa.writer(b, schema, records, sync_marker=b"\x15" * 16, **opts)
+    return b.getvalue()
+
+
 def op_sread(fa, data, schema, reader_schema):
     return fa.schemaless_reader(io.BytesIO(data), schema, reader_schema) if reader_schema is not None else fa.schemaless_reader(io.BytesIO(data), schema)
 
@@ -198,7 +210,7 @@ def op_load(fa, path):
     return strip(load_schema(path))
 
 
-OPS = {f.__name__[3:]: f for f in (op_parse, op_swrite, op_sread, op_cwrite, op_cwrite_meta, op_tee_block, op_cread, op_validate, op_validate_many,
+OPS = {f.__name__[3:]: f for f in (op_parse, op_swrite, op_swrite_opts, op_cwrite_opts, op_sread, op_cwrite, op_cwrite_meta, op_tee_block, op_cread, op_validate, op_validate_many,
                                    op_pcf, op_jwrite, op_jread, op_generate, op_gen_roundtrip, op_expand, op_load)}
 
 
@@ -379,7 +391,7 @@ def collide(js, rng):
 def build_history(rng, scratch):
     """A list of steps; each step = (op name, args builder reading the env)."""
     env = {}
-    base = gen_case(rng, dict(bytes_defaults=0.0, max_nodes=12, max_depth=3, top_kinds=["record"] if rng.random() < 0.7 else None,
+    base = gen_case(rng, dict(bytes_defaults=0.4, union_default_any=True, max_nodes=12, max_depth=3, top_kinds=["record"] if rng.random() < 0.7 else None,
                               logical=rng.random() < 0.3),
                     dict(size_budget=25, big=0.0, mappings=0.0))
     s1 = base["schema"]
@@ -389,7 +401,7 @@ def build_history(rng, scratch):
     except Exception:
         s2, n2 = copy.deepcopy(s1), base["node"]
     schemas = {"s1": (s1, base["node"]), "s2": (s2, n2)}
-    third = gen_case(rng, dict(bytes_defaults=0.0, max_nodes=10, max_depth=3, logical=True, top_kinds=["record"]),
+    third = gen_case(rng, dict(bytes_defaults=0.4, max_nodes=10, max_depth=3, logical=True, top_kinds=["record"]),
                      dict(size_budget=20, big=0.0, mappings=0.0))
     schemas["s3"] = (third["schema"], third["node"])
     return schemas
@@ -456,7 +468,7 @@ def _run_history(sh, fa, zy, rng, scratch, hidx, schemas, repo_dir, repo_root, r
         kind = rng.choice(["parse", "parse_shared", "swrite", "sread", "cwrite", "cread", "validate", "validate_many", "pcf",
                            "jwrite", "jread", "generate", "expand", "swrite_bad", "sread_trunc", "parse_unknown_ref", "cwrite_bad",
                            "gen_roundtrip", "gen_roundtrip", "dangling_ref", "dangling_ref", "load", "load_other",
-                           "cwrite_meta", "cwrite_meta", "tee_block"])
+                           "cwrite_meta", "cwrite_meta", "tee_block", "swrite_opts", "swrite_opts", "cwrite_opts"])
         name, args, data_args = None, None, []
         if kind == "parse":
             name, args = "parse", (sarg, None)
@@ -465,6 +477,18 @@ def _run_history(sh, fa, zy, rng, scratch, hidx, schemas, repo_dir, repo_root, r
             shared_used = True
         elif kind == "swrite":
             name, args = "swrite", (sarg, d)
+        elif kind in ("swrite_opts", "cwrite_opts"):
+            # the rarely used writer options; complete data (no omitted field) so that strict modes can succeed
+            full = DatumGen(rng, size_budget=20, big=0.0, mappings=0.0, omit_defaults=0.0).gen(node)
+            if RC.float_out_of_range(node, full) or RC.raw_under_logical(node, full):
+                continue
+            opts = rng.choice([{"strict": True}, {"strict_allow_default": True}, {"disable_tuple_notation": True},
+                               {"strict": True, "disable_tuple_notation": True}])
+            victim = rng.choice([full, full, d] + ([bad] if bad is not None else []))
+            if kind == "swrite_opts":
+                name, args = "swrite_opts", (sarg, victim, opts)
+            else:
+                name, args = "cwrite_opts", (sarg, [full, victim], dict(opts, validator=rng.random() < 0.5))
         elif kind == "swrite_bad" and bad is not None:
             name, args = "swrite", (sarg, bad)
         elif kind == "sread":
